@@ -1,8 +1,45 @@
-(** C07_micro. put split at its schedule points: the race between two puts of one key
+(** C07_micro. put split at its schedule points: both presence checks from any state; the race between two puts of one key
     This file only pins statements: every theorem restates a lemma of proofs/ verbatim and is closed by it. *)
 From CacheD Require Import Base Sketch Model Window Micro.
 From CacheD.proofs Require Import Defs ApiProofs HistoryProofs StatsProofs.
-From CacheD.proofs Require Import MicroProofs.
+From CacheD.proofs Require Import MicroProofs MicroPut.
+
+(** (C07, caller side, any state): the `put.checked` step of a put (any variant, valid weight) whose key is
+   physically present at that moment answers 'key already exists' on the spot, ends the call and changes nothing *)
+Theorem C07_micro_put_check_present :
+  forall cfg ms tid r k idxs e,
+  is_put_request r k -> valid_request r ->
+  alookup tid (cps ms) = Some (PEntered r) -> alookup k (store (mbase ms)) = Some e ->
+  snd (mstepc cfg ms tid idxs) = [1; status_code (Rejected KeyAlreadyExists)] /\
+  mbase (fst (mstepc cfg ms tid idxs)) = mbase ms /\ alookup tid (cps (fst (mstepc cfg ms tid idxs))) = None.
+Proof. exact micro_put_check_present. Qed.
+Print Assumptions C07_micro_put_check_present.
+
+(** (C07, caller side, any state): and when the key is physically absent at that moment the step never answers
+   'key already exists' *)
+Theorem C07_micro_put_check_absent :
+  forall cfg ms tid r k idxs,
+  is_put_request r k -> alookup tid (cps ms) = Some (PEntered r) -> alookup k (store (mbase ms)) = None ->
+  snd (mstepc cfg ms tid idxs) <> [1; status_code (Rejected KeyAlreadyExists)].
+Proof. exact micro_put_check_absent. Qed.
+Print Assumptions C07_micro_put_check_absent.
+
+(** (C07, worker side, any state): when the worker takes a put whose key is physically present at that moment it
+   answers 'key already exists', opens no window and leaves store, ledger, expiry index and statistics untouched; when the
+   key is absent the answer - whenever it comes - is never 'key already exists' *)
+Theorem C07_micro_worker_put_status :
+  forall cfg ms orc c k a q,
+  wdel ms = None -> wpending (win ms) = None ->
+  worker (mbase ms) = Alive -> queue (mbase ms) = (c, a) :: q -> cmd_put_key c = Some k ->
+  alookup a (acks (mbase ms)) = Some Pending ->
+  let ms' := fst (mworker1 cfg ms orc) in
+  (alookup k (store (mbase ms)) <> None ->
+     alookup a (acks (mbase ms')) = Some (Rejected KeyAlreadyExists) /\ wdel ms' = None /\ wpending (win ms') = None /\
+     store (mbase ms') = store (mbase ms) /\ weights (mbase ms') = weights (mbase ms) /\ used (mbase ms') = used (mbase ms) /\
+     ticker (mbase ms') = ticker (mbase ms) /\ st (mbase ms') = st (mbase ms)) /\
+  (alookup k (store (mbase ms)) = None -> alookup a (acks (mbase ms')) <> Some (Rejected KeyAlreadyExists)).
+Proof. exact micro_worker_put_status. Qed.
+Print Assumptions C07_micro_worker_put_status.
 
 (** (C05 / C07, the race the worker's re-check closes): both puts are queued, the one that is executed first is
    accepted, the other is answered 'key already exists'; one entry, one charge, nothing left over *)
